@@ -15,6 +15,9 @@ GROUPS = [
     Group(name="C11/set_source_order.pool20[bounded]", unity="C11/u_sym.cpp", entry="h_sym", functions=F, defines=["SCN=3", "POOL=20"], unwind=8, checks=CH, timeout=2400, mem_gb=19, bounded=B % "re-#defined to 20 bytes (one record per pool); names of one character"),
     Group(name="C11/set_vs_label_lock.pool20[bounded]", unity="C11/u_sym.cpp", entry="h_sym", functions=F, defines=["SCN=5", "POOL=20"], unwind=8, checks=CH, timeout=2400, mem_gb=19, bounded=B % "re-#defined to 20 bytes (one record per pool); names of one character"),
 ]
+for _n in (254, 255):
+    GROUPS.append(Group(name="C11/long_name.%d[bounded]" % _n, unity="C11/u_sym.cpp", entry="h_sym", functions=F, defines=["SCN=6", "NAMELEN=%d" % _n, "POOL=600"], unwind=270, checks=CH, timeout=900,
+                        bounded="one name of exactly %d characters followed by a one-character name; pool size re-#defined to 600 bytes" % _n))
 LEVEL = "other"
 TRUSTED = ["malloc succeeds"]
 EXPLANATION = ("Bounded model checking of the real Symbols/MemoryPool code with CBMC (complete unwinding for the stated bounds): the symbol pools are linked lists of "
